@@ -12,10 +12,12 @@
 (* UseRLock / UseSendLock = FALSE give the weakened protocols (a lock      *)
 (* dropped): TLC must then find the corresponding invariant violated,      *)
 (* which shows the invariants are carried by the locks and not vacuous.    *)
+(* TailUnderLock = FALSE releases the resend lock before the last replayed *)
+(* message (the trailing gap fill of resendMessages) is sent.              *)
 (***************************************************************************)
 EXTENDS Integers, Sequences, FiniteSets, TLC
 
-CONSTANTS Senders, PerSender, LoopActions, UseRLock, UseSendLock
+CONSTANTS Senders, PerSender, LoopActions, UseRLock, UseSendLock, TailUnderLock
 
 VARIABLES nextOut,      \* store: next outbound number
           stored,       \* store: numbers saved (with the message: [n, first-time id])
@@ -89,15 +91,30 @@ ReplayOne == /\ pc["loop"] = "replaying" /\ local["loop"].i <= local["loop"].n
              /\ queue' = <<>>
              /\ local' = [local EXCEPT !["loop"].i = @ + 1]
              /\ UNCHANGED <<nextOut, stored, readers, writer, sendOwner, pc, left, replayFrom>>
+\* weakened protocol: the lock is given up before the last replayed message goes out
+ReleaseBeforeTail == /\ ~TailUnderLock
+                     /\ pc["loop"] = "replaying" /\ local["loop"].i = local["loop"].n
+                     /\ writer' = FALSE
+                     /\ pc' = [pc EXCEPT !["loop"] = "tail"]
+                     /\ UNCHANGED <<nextOut, stored, queue, wire, readers, sendOwner, local, left, replayFrom>>
+TailOne == /\ pc["loop"] = "tail"
+           /\ (UseSendLock => sendOwner = NoOne)
+           /\ wire' = wire \o queue \o <<[n |-> local["loop"].i, pd |-> TRUE, id |-> <<"replay", local["loop"].i>>]>>
+           /\ queue' = <<>>
+           /\ pc' = [pc EXCEPT !["loop"] = "taildone"]
+           /\ UNCHANGED <<nextOut, stored, readers, writer, sendOwner, local, left, replayFrom>>
+EndTail == /\ pc["loop"] = "taildone"
+           /\ pc' = [pc EXCEPT !["loop"] = "idle"] /\ replayFrom' = 0
+           /\ UNCHANGED <<nextOut, stored, queue, wire, readers, writer, sendOwner, local, left>>
 EndReplay == /\ pc["loop"] = "replaying" /\ local["loop"].i > local["loop"].n
              /\ writer' = FALSE /\ replayFrom' = 0
              /\ pc' = [pc EXCEPT !["loop"] = "idle"]
              /\ UNCHANGED <<nextOut, stored, queue, wire, readers, sendOwner, local, left>>
 
 Step == \/ \E p \in Procs : BeginSend(p) \/ LockSend(p) \/ ReadNumber(p) \/ Persist(p) \/ Enqueue(p)
-        \/ Flush \/ BeginReplay \/ ReplayOne \/ EndReplay
+        \/ Flush \/ BeginReplay \/ ReplayOne \/ EndReplay \/ ReleaseBeforeTail \/ TailOne \/ EndTail
 Next == Step
-Spec == Init /\ [][Next]_vars /\ WF_vars(Flush) /\ WF_vars(ReplayOne \/ EndReplay) /\ \A p \in Procs : WF_vars(LockSend(p) \/ ReadNumber(p) \/ Persist(p) \/ Enqueue(p))
+Spec == Init /\ [][Next]_vars /\ WF_vars(Flush) /\ WF_vars(ReplayOne \/ EndReplay \/ TailOne \/ EndTail) /\ \A p \in Procs : WF_vars(LockSend(p) \/ ReadNumber(p) \/ Persist(p) \/ Enqueue(p))
 
 \* ---------------------------------------------------------------- C02
 Live(w) == SelectSeq(w, LAMBDA m : ~m.pd)
